@@ -278,6 +278,34 @@ def run(res, tier):
                            'items are lost' % (f.q, l.get('n'), how or 'no wrap test'))
     if n_iw < 1:
         raise AnalysisBroken('INDEX-WRAP: no additive index update found')
+    # ---- COPY-FITS: the reallocation path copies all _itemCount items into the new array; the requested size has been reconciled with the item count before
+    res.rule('COPY-FITS', 'EnsureSizeAux: the loop that copies the current items into the newly chosen array is preceded on every path by a comparison of the requested size with _itemCount '
+                          '(truncate first, or never go below the item count)', floor=1)
+    n_cf = 0
+    for f in sorted(funcs, key=lambda f: f.line):
+        if f.q.split('::')[-1] != 'EnsureSizeAux':
+            continue
+        sized = f.params[0]['d']
+        copies = []
+        for l_ in f.walk():
+            if l_['k'] == 'ForStmt' and l_.role('cond') is not None and any(x['k'] == 'MemberExpr' and x.get('n') == '_itemCount' for x in l_.role('cond').walk()):
+                for x in l_.walk():
+                    if x['k'] in ('BinaryOperator', 'CXXOperatorCallExpr') and ((x.get('op') == '=') or (x.get('q') or '').endswith('operator=')):
+                        lhs = A.strip_casts(x['ch'][0] if x['k'] == 'BinaryOperator' else x['ch'][1])
+                        if lhs['k'] == 'ArraySubscriptExpr' and A.strip_casts(lhs['ch'][0])['k'] == 'DeclRefExpr' and A.strip_casts(lhs['ch'][0]).get('d') is not None:
+                            copies.append(x)
+        if not copies:
+            continue
+        n_cf += 1
+        cmps = [n for n in f.walk() if n['k'] == 'BinaryOperator' and n.get('op') in ('<', '<=', '>', '>=') and any(x['k'] == 'DeclRefExpr' and x.get('d') == sized for x in n.walk())
+                and any(x['k'] == 'MemberExpr' and x.get('n') == '_itemCount' for x in n.walk())]
+        ok = bool(cmps) and all(P.must_precede(f, cmps, c_) for c_ in copies)
+        res.ob('COPY-FITS', f.where(copies[0]), 'EnsureSizeAux compares the requested size with _itemCount before it copies _itemCount items into the new array', ok, function=f.q,
+               key='COPY-FITS|%s' % (f.q.split('<')[0] + '::EnsureSizeAux'),
+               message='EnsureSizeAux copies all _itemCount items into an array chosen from the requested size alone: EnsureSize(2, true, 0, /*allowShrink*/true) on a 10-item Queue selects the 3-slot '
+                       'inline buffer and writes 10 items into it (buffer overflow past the Queue object)')
+    if n_cf < 1:
+        raise AnalysisBroken('COPY-FITS: the copy loop of EnsureSizeAux was not found')
     res.rule('ALIAS-GUARD', 'a Queue method that shifts existing items in place (ReplaceItemAt(i, GetItemAtUnchecked(i+-1)) in a loop) and then stores its by-reference item parameter evaluates '
                             'IsItemLocatedInThisContainer(item) on every path before the shift (not only when a reallocation is due)', floor=1)
     n_ag = 0
